@@ -23,6 +23,7 @@ func scribble(r *Rec) {
 	r.Z += "~"
 	r.V += 1000
 	r.W += "~"
+	r.O += 1000
 	for i := range r.L {
 		r.L[i] += 1000
 	}
